@@ -192,7 +192,9 @@ def run_unit(name, tier="quick", rlimit=None, smt_seed=None):
         if bad:
             raise E.Undecided("assume-in-ghost-text", "\n".join(bad))
         ex = E.extract(unit)
+        E.SHAPE.pop(name, None)
         text, contracts, order = E.assemble(unit, ex)
+        res["shape"] = dict(E.SHAPE.get(name, {}))
         os.makedirs(E.BUILD, exist_ok=True)
         gen = os.path.join(E.BUILD, f"{name}.rs")
         with open(gen, "w") as f:
@@ -488,7 +490,14 @@ def decide(prop, tier, seed, args):
             knowns.append((r, o, k))
             continue
         b = baseline.get(r["unit"], {})
-        if o["id"] not in b.get("discharged", []):
+        sh_now, sh_base = r.get("shape", {}).get(o.get("fn"), {}), b.get("shape", {}).get(o.get("fn"))
+        gained = [k for k in ("closures", "bare_loops") if sh_base is not None and sh_now.get(k, 0) > sh_base.get(k, 0)]
+        if gained:
+            # the verifier assumes nothing about the result of a closure without a specification or about the state after a
+            # loop without an invariant: a postcondition that fails behind one is undecided, not refuted
+            unstable.append((r, o, f"the function gained {' and '.join('a closure without a specification' if k == 'closures' else 'a loop without an invariant' for k in gained)} "
+                                   "since the baseline: the verifier assumes nothing about it, so the failed obligation is not a refutation"))
+        elif o["id"] not in b.get("discharged", []):
             unstable.append((r, o, "obligation was never discharged on the unchanged tree (not in baseline)"))
         elif b.get("gen_sha") == r.get("gen_sha"):
             unstable.append((r, o, "generated verifier input is byte-identical to the baseline run that discharged it: solver instability"))
@@ -675,7 +684,7 @@ def update_baseline(unit_names):
         if r["status"] != "ok":
             print(f"unit {n}: UNDECIDED {r['reason']}\n{r['detail'][:3000]}")
             continue
-        b[n] = {"gen_sha": r["gen_sha"], "items_sha": r["items_sha"],
+        b[n] = {"gen_sha": r["gen_sha"], "items_sha": r["items_sha"], "shape": r.get("shape", {}),
                 "discharged": sorted(o["id"] for o in r["obligations"] if o["status"] == "discharged"),
                 "failed": sorted(o["id"] for o in r["obligations"] if o["status"] == "failed")}
         with open(ledger_path(E.load_unit(n)), "w") as f:
